@@ -53,6 +53,12 @@ def handleFnGen2 : Handler := fun st op args =>
     some (st, withPos ptok fun p =>
       let (c, ok) := Gen.positionHasRoad p.bgroups.toArray p.wgroups.toArray p.c.B p.c.L p.c.R p.c.T p.move
       s!"{c.toNat} {b01 ok}")
+  | "fn.windetails", [ptok] =>
+    some (st, withPos ptok fun p =>
+      let hr := Gen.positionHasRoad p.bgroups.toArray p.wgroups.toArray p.c.B p.c.L p.c.R p.c.T p.move
+      let d := Gen.positionWinDetails p.black p.caps p.standing p.white p.blackCaps p.blackStones p.cfg.blackWinsTies p.c.Mask
+        hr p.whiteCaps p.whiteStones
+      s!"{b01 d.Over} {d.Reason} {d.Winner.toNat} {d.WhiteFlats} {d.BlackFlats}")
   | "fn.floodgroups", [n, bits, pre] =>
     match n.toNat?, bits.toNat?, commaNat pre with
     | some n, some bits, some pre =>
